@@ -42,13 +42,13 @@ FAULT_KINDS = ["abandon", "close_after_call", "short_read"]
 TIME_UNIT = "logical steps (one entry-point call or one next() on a live lazy result); the component has no clock"
 RULE = (
     "one run = 1-2 array/object documents, 1-4 queries (simple, or compound with 1-3 | and & operators) and a history of "
-    "2-12 calls over {module, environment, compiled} x {findall, finditer, match, query} x 15 document forms (incl. white-space padded text, text streams in other encodings, short-read "
+    "2-12 calls over {module, environment, compiled} x {findall, finditer, match, query} x 16 document forms (incl. white-space padded text, text streams in other encodings, short-read "
     "streams; a stream may be closed by the caller as soon as the call has returned); lazy results "
     "are advanced one match at a time in seeded interleaving with later calls, some abandoned mid-way. Non-trivial: the "
     "run used >= 2 document forms and >= 2 entry-point kinds on one (query, document) and some result was non-empty; "
     "distinct by event-log digest."
 )
-STATES_MEASURE = "distinct (entry level, method, document form, simple/compound, lazy-interleaved?) tuples (3 x 4 x 15 x 2 x 2 = 720 possible)"
+STATES_MEASURE = "distinct (entry level, method, document form, simple/compound, lazy-interleaved?) tuples (3 x 4 x 16 x 2 x 2 = 768 possible)"
 REAL = ["jsonpath package: env/compiled/module entry points, CompoundJSONPath, _data.load_data, fluent_api.Query"]
 STUB = ["SimFile single-use stream stubs (text and binary, non-seekable)", "iterator scheduler over live lazy results", "scratch real files"]
 ASSUMPTIONS = [
@@ -62,9 +62,9 @@ PROBES = ["large_document", "compound_x_stream_form", "lazy_alive_across_another
 
 LEVELS = ["module", "env", "compiled"]
 METHODS = ["findall", "finditer", "match", "query"]
-FORMS = ["value", "text_compact", "text_indent", "text_noascii", "text_ws", "stringio", "bytesio", "simfile_text", "simfile_bin", "realfile",
+FORMS = ["value", "shared", "text_compact", "text_indent", "text_noascii", "text_ws", "stringio", "bytesio", "simfile_text", "simfile_bin", "realfile",
          "trickle_text", "trickle_bin", "textio_latin1", "textio_utf16", "realfile_latin1"]
-STREAM_FORMS = FORMS[5:]
+STREAM_FORMS = FORMS[6:]
 
 _SCRATCH_ENV = jsonpath.JSONPathEnvironment()
 _TMP: List[str] = []
@@ -145,6 +145,9 @@ def qtext(q: Dict[str, Any]) -> str:
 def _doc_form(form: str, doc: Any, ctx: Ctx, opened: List[Any]) -> Any:
     if form == "value":
         return copy.deepcopy(doc)
+    if form == "shared":
+        # the caller's one parsed document, handed to call after call (evaluation does not modify it)
+        return doc
     if form == "text_compact":
         return json.dumps(doc, separators=(",", ":"))
     if form == "text_indent":
@@ -181,8 +184,10 @@ def _doc_form(form: str, doc: Any, ctx: Ctx, opened: List[Any]) -> Any:
     if form == "simfile_bin":
         return SimFile(text.encode(), text=False, name="doc.json", mode="rb")
     if form in ("trickle_text", "trickle_bin"):
-        # a pipe/socket-like stream: read(n) hands out at most a few units per call (short reads)
-        return SimFile(text.encode(), text=form == "trickle_text", name="pipe", mode="r" if form == "trickle_text" else "rb",
+        # a pipe/socket-like stream: read(n) hands out at most a few units per call (short reads);
+        # raw UTF-8 so that a multi-byte character can straddle two reads
+        raw8 = json.dumps(doc, ensure_ascii=False).encode("utf-8")
+        return SimFile(raw8, text=form == "trickle_text", name="pipe", mode="r" if form == "trickle_text" else "rb",
                        max_read=1 + ctx.seed % 17)
     if form == "realfile":
         path = os.path.join(_tmpdir(), f"doc{len(opened)}.json")
@@ -276,7 +281,7 @@ def _clause(call: Dict[str, Any], compound: bool) -> str:
     form = call["form"]
     if form.startswith("text"):
         return "C11.text"
-    if form != "value":
+    if form not in ("value", "shared"):
         return "C11.file"
     if call["level"] != "compiled":
         return "C11.levels"
